@@ -133,6 +133,8 @@ def apply_op(run, w, k, op):
         x = run.integer('x%d' % k, -10 ** 6, 10 ** 6) if integer else run.real('x%d' % k, -10 ** 6, 10 ** 6)
         root.adjust(x)
         info['flow'] = x
+        if len(op) > 1:
+            root[op[1]].weight           # ['adjust', child]: the first thing read after the flow is that child's weight (its clock may lag the root's)
     elif kind == 'adjust_nf':
         x = run.integer('x%d' % k, -10 ** 6, 10 ** 6) if integer else run.real('x%d' % k, -10 ** 6, 10 ** 6)
         root.adjust(x, flow=False)
@@ -157,6 +159,8 @@ def apply_op(run, w, k, op):
     elif kind == 'rebal':
         par = node(w, op[3]) if len(op) > 3 else root
         par.rebalance(op[2], op[1])
+    elif kind == 'rebal_base':       # ['rebal_base', child, weight, base]: rebalance against an explicit base (no value read beforehand)
+        root.rebalance(op[2], op[1], base=op[3])
     elif kind == 'close':
         par = node(w, op[2]) if len(op) > 2 else root
         if op[1] in par.children:
@@ -175,6 +179,13 @@ def apply_op(run, w, k, op):
     elif kind == 'read':
         for n in root.members:
             n.value, n.weight, n.price
+    elif kind == 'read_w':
+        # the first thing looked at after a change is the WEIGHT of the deepest / last nodes (possibly securities whose own clock lags the root's)
+        if len(op) > 1:
+            root[op[1]].weight
+        else:
+            for n in reversed(root.members):
+                n.weight
     else:
         raise ValueError(kind)
     return info
@@ -182,7 +193,7 @@ def apply_op(run, w, k, op):
 
 def do_ops(run, w, ops, after=None, start=0):
     """Run the configured operations; bt exceptions end the path as 'raised' (judged by C05/C10, not here)."""
-    ops = list(ops) + [['next']] * int(w.cfg.get('tail_next', 0))
+    ops = [['next']] * int(w.cfg.get('lead_next', 0)) + list(ops) + [['next']] * int(w.cfg.get('tail_next', 0))
     for k, op in enumerate(ops):
         try:
             info = apply_op(run, w, start + k, op)
@@ -241,7 +252,9 @@ def _fund(run, w, prior=True):
                 tag = 'pos_%s_%s' % (par.name, nme)
                 if w.cfg.get('subcash') and par is not w.root:
                     continue               # sub-strategies hold cash only
-                if gridsub and par is not w.root:
+                if par is w.root and nme in (w.cfg.get('prior_fixed') or {}):
+                    q = w.cfg['prior_fixed'][nme]          # e.g. a security that is never held
+                elif gridsub and par is not w.root:
                     # concrete prior inside sub-strategies: `amount * child weight` stays linear in the symbolic amount
                     q = GPOS[nme] if par.name != 'sub2' else 75.0
                 else:
@@ -347,7 +360,7 @@ class Ghost:
 
 
 def do_ops_ghost(run, w, ops, ghost, after=None, start=0):
-    ops = list(ops) + [['next']] * int(w.cfg.get('tail_next', 0))
+    ops = [['next']] * int(w.cfg.get('lead_next', 0)) + list(ops) + [['next']] * int(w.cfg.get('tail_next', 0))
     for k, op in enumerate(ops):
         ghost.before()
         try:
